@@ -9,5 +9,7 @@ CONSTANTS
   Seeds <- MCSeeds
   Cases <- MCCases
   Policies <- Both
+  Configs <- AllConfigs
+  ConfigDepth = 0
 INVARIANTS NonInterference FinalEqualsSolo
 CHECK_DEADLOCK FALSE
